@@ -4,6 +4,8 @@ package main
 
 import (
 	"fmt"
+	"go/token"
+	"go/types"
 	"sort"
 	"strings"
 
@@ -162,4 +164,193 @@ func c09Twins(c *Ctx, r *Report) {
 			fmt.Sprintf("%s tests [%s] where its twin tests [%s]: they are not mirror images (expected [%s]) — one of the two orders its elements the wrong way at the place where they differ", an, strings.Join(sa, " "), strings.Join(sd, " "), strings.Join(want, " ")))
 	}
 	r.Floor("R09.10", "ascending/descending twins with direct ordering tests", n, 1)
+}
+
+// c10UnlinkSymmetric (R10.8): taking a node out of a doubly linked list
+// redirects both neighbours.
+func c10UnlinkSymmetric(c *Ctx, r *Report) {
+	r.Rule("R10.8", "an unlink redirects both neighbours: for every doubly linked node type of packages lib, mlrval and output (a struct with two fields pointing to its own type — the ordered map that holds grouping state, the record's field list, the handle cache's recency list), wherever a function makes one neighbour skip a node (x.A.B = x.B: the neighbour reached through link A gets x's B-link), every path from there to the function's return also makes the other neighbour skip it (x.B.A = x.A) or moves an end pointer of the list's owner — a one-sided unlink leaves a stale back-pointer, and a later removal next to it patches the dead node instead of the live one")
+	n := 0
+	seenOrigin := map[*ssa.Function]bool{}
+	for _, fn := range c.ModuleFunctions() {
+		if fn.Blocks == nil {
+			continue
+		}
+		pkg := fn.Pkg
+		if pkg == nil && fn.Origin() != nil {
+			// an instantiation of a generic function (the ordered map): one instance stands for all
+			if seenOrigin[fn.Origin()] {
+				continue
+			}
+			seenOrigin[fn.Origin()] = true
+			pkg = fn.Origin().Pkg
+		}
+		if pkg == nil {
+			continue
+		}
+		pp := pkg.Pkg.Path()
+		if !(strings.HasSuffix(pp, "/pkg/lib") || strings.HasSuffix(pp, "/pkg/mlrval") || strings.HasSuffix(pp, "/pkg/output")) {
+			continue
+		}
+		// self-link fields of a node type
+		selfLinks := func(t types.Type) map[int]bool {
+			pt, ok := t.Underlying().(*types.Pointer)
+			if !ok {
+				return nil
+			}
+			st, ok := pt.Elem().Underlying().(*types.Struct)
+			if !ok {
+				return nil
+			}
+			out := map[int]bool{}
+			for i := 0; i < st.NumFields(); i++ {
+				if types.Identical(st.Field(i).Type(), t) {
+					out[i] = true
+				}
+			}
+			if len(out) != 2 {
+				return nil
+			}
+			return out
+		}
+		type bypass struct {
+			x    ssa.Value // the node being skipped
+			a, b int       // neighbour reached through a gets x's b-link
+			st   *ssa.Store
+		}
+		var found []bypass
+		for _, blk := range fn.Blocks {
+			for _, in := range blk.Instrs {
+				st, ok := in.(*ssa.Store)
+				if !ok {
+					continue
+				}
+				fa, ok := st.Addr.(*ssa.FieldAddr) // &(x.A).B
+				if !ok {
+					continue
+				}
+				links := selfLinks(fa.X.Type())
+				if links == nil || !links[fa.Field] {
+					continue
+				}
+				nb, ok := fa.X.(*ssa.UnOp) // x.A loaded
+				if !ok || nb.Op != token.MUL {
+					continue
+				}
+				nfa, ok := nb.X.(*ssa.FieldAddr)
+				if !ok || !links[nfa.Field] || nfa.Field == fa.Field || !types.Identical(nfa.X.Type(), fa.X.Type()) {
+					continue
+				}
+				// value stored: x.B loaded
+				vl, ok := st.Val.(*ssa.UnOp)
+				if !ok || vl.Op != token.MUL {
+					continue
+				}
+				vfa, ok := vl.X.(*ssa.FieldAddr)
+				if !ok || vfa.Field != fa.Field || !(vfa.X == nfa.X || sameStr(vfa.X, nfa.X)) {
+					continue
+				}
+				found = append(found, bypass{nfa.X, nfa.Field, fa.Field, st})
+			}
+		}
+		if len(found) == 0 {
+			continue
+		}
+		fname := SSAName(fn)
+		if fn.Pkg == nil && fn.Origin() != nil {
+			fname = SSAName(fn.Origin())
+		}
+		for i, bp := range found {
+			n++
+			// is this instruction the other side, or an end-pointer move?
+			settles := func(in ssa.Instruction) bool {
+				st, ok := in.(*ssa.Store)
+				if !ok {
+					return false
+				}
+				fa, ok := st.Addr.(*ssa.FieldAddr)
+				if !ok {
+					return false
+				}
+				// x.B.A = …
+				if fa.Field == bp.a && types.Identical(fa.X.Type(), bp.x.Type()) {
+					if nb, ok := fa.X.(*ssa.UnOp); ok && nb.Op == token.MUL {
+						if nfa, ok := nb.X.(*ssa.FieldAddr); ok && nfa.Field == bp.b && (nfa.X == bp.x || sameStr(nfa.X, bp.x)) {
+							return true
+						}
+					}
+				}
+				// owner.End = … : a field of node-pointer type in another struct
+				if types.Identical(fa.Type().(*types.Pointer).Elem(), bp.x.Type()) && !types.Identical(fa.X.Type(), bp.x.Type()) {
+					return true
+				}
+				return false
+			}
+			bad := ""
+			seen := map[*ssa.BasicBlock]bool{}
+			var walk func(b *ssa.BasicBlock, from int)
+			walk = func(b *ssa.BasicBlock, from int) {
+				if bad != "" {
+					return
+				}
+				if from == 0 {
+					if seen[b] {
+						return
+					}
+					seen[b] = true
+				}
+				for j := from; j < len(b.Instrs); j++ {
+					if settles(b.Instrs[j]) {
+						return
+					}
+					if ret, ok := b.Instrs[j].(*ssa.Return); ok {
+						bad = c.Rel(ret.Pos())
+						return
+					}
+				}
+				for _, s := range b.Succs {
+					walk(s, 0)
+				}
+			}
+			// also accept a settle *before* the store in the same function on every path to it? no: order is free,
+			// so look both ways: if some dominating block already settled, fine
+			// settled on every path that leads to the store?
+			settledBefore := true
+			{
+				seenB := map[*ssa.BasicBlock]bool{}
+				var back func(b *ssa.BasicBlock)
+				back = func(b *ssa.BasicBlock) {
+					if !settledBefore || seenB[b] {
+						return
+					}
+					seenB[b] = true
+					for _, in := range b.Instrs {
+						if settles(in) {
+							return
+						}
+						if in == ssa.Instruction(bp.st) {
+							settledBefore = false
+							return
+						}
+					}
+					for _, s := range b.Succs {
+						back(s)
+					}
+				}
+				back(fn.Blocks[0])
+			}
+			if !settledBefore {
+				idx := 0
+				for k, in := range bp.st.Block().Instrs {
+					if in == ssa.Instruction(bp.st) {
+						idx = k
+					}
+				}
+				walk(bp.st.Block(), idx+1)
+			}
+			r.Check(bad == "", "R10.8", fmt.Sprintf("%s: unlink #%d", fname, i+1), c.Rel(bp.st.Pos()), "the other neighbour is redirected, or an end pointer moved, on every path",
+				fmt.Sprintf("%s makes one neighbour skip a node at %s, and there is a path to the return at %s on which neither the other neighbour is redirected nor an end pointer of the list moved: the other neighbour keeps pointing at the removed node", SSAName(fn), c.Rel(bp.st.Pos()), bad))
+		}
+	}
+	r.Floor("R10.8", "one-sided neighbour redirections examined", n, 3)
 }
